@@ -27,6 +27,9 @@ type c03Case struct {
 	ProdFaults []map[string]gen.Fault `json:"producer_faults,omitempty"` // per message
 	WriteFail  int64                  `json:"transport_write_fail_at"`   // -1: none; absolute offset in the client->server byte stream
 	FailClass  string                 `json:"fail_class,omitempty"`
+	// Resend: after the faulty call, the messages that were not delivered are sent again by a new call over a
+	// healthy transport with all faults disarmed (what a caller does after a failed Send)
+	Resend bool `json:"resend,omitempty"`
 }
 
 type c03Dry struct {
@@ -86,6 +89,30 @@ func runC03Case(r *ev.Run, c c03Case) c03Dry {
 	dry := c03Dry{}
 	if len(sr.Sessions) == 0 {
 		return dry
+	}
+	// the retry: same *Msg values, new call, nothing fails any more
+	var sr2 *sendRun
+	var resent []int
+	if c.Resend && !sr.Hung {
+		var again []*mail.Msg
+		for i, m := range msgs {
+			if !m.IsDelivered() && c.Specs[i].SMIME != "ed25519-unsupported" {
+				resent = append(resent, i)
+				again = append(again, m)
+			}
+		}
+		if len(again) > 0 {
+			sr2 = runSendT(func(int) *refsmtp.Config {
+				return &refsmtp.Config{AllowUTF8: true}
+			}, func(n int, tc *faultio.TrackConn) { tc.KeepBytes = true }, []mail.Option{mail.WithTLSPolicy(mail.NoTLS)}, again, c.Via, false, defaultNetTimeout)
+			if sr2.Panic != nil {
+				viol("panic:resend:"+c.FailClass, fmt.Sprintf("client panicked in the retry: %v", sr2.Panic), nil)
+			}
+			if sr2.Hung {
+				r.Inconclusive("C03 retry hung, class=" + c.FailClass)
+				sr2 = nil
+			}
+		}
 	}
 	// expected renderings, produced after the call with all producer faults disarmed
 	exp := make([][]byte, len(msgs))
@@ -164,7 +191,53 @@ func runC03Case(r *ev.Run, c c03Case) c03Dry {
 			}
 		}
 	}
+	if sr2 != nil {
+		recommitted := make([]int, len(msgs))
+		for _, s := range sr2.Sessions {
+			_, commits, _ := s.Snapshot()
+			for _, cm := range commits {
+				if !cm.Complete || !cm.Accepted {
+					continue
+				}
+				r.Count("retry_commits_accepted", 1)
+				which := -1
+				for _, i := range resent {
+					if exp[i] != nil && bytes.Equal(cm.Data, exp[i]) {
+						which = i
+					}
+				}
+				if which < 0 {
+					kind := "mixture"
+					for _, i := range resent {
+						if exp[i] == nil {
+							continue
+						}
+						t := bytes.TrimSuffix(cm.Data, []byte("\r\n"))
+						if bytes.HasPrefix(exp[i], t) {
+							kind = "prefix"
+						} else if len(t) > 0 && bytes.Contains(exp[i], t) && kind != "prefix" {
+							kind = "fragment"
+						} else if kind == "mixture" && len(cm.Data) < len(exp[i]) && cm.From == fmt.Sprintf("m%d@sender.example", i) {
+							kind = "shorter"
+						}
+					}
+					viol("retry-committed-incomplete:"+kind+":"+c.FailClass, fmt.Sprintf("after a failed call (%s) the same messages were sent again over a healthy connection: the server accepted %d bytes that are not the complete rendering of any of them (%s)", c.FailClass, len(cm.Data), kind), map[string]any{"committed": ev.Q(cm.Data, 600), "transcript": s.Transcript()})
+					continue
+				}
+				recommitted[which]++
+			}
+		}
+		for _, i := range resent {
+			if recommitted[i] != 1 || !msgs[i].IsDelivered() {
+				viol("retry-not-delivered:"+c.FailClass, fmt.Sprintf("message %d, sent again over a healthy connection after a failed call, was committed %d times, IsDelivered()=%t, error: %v", i, recommitted[i], msgs[i].IsDelivered(), sr2.SendErr), nil)
+			}
+		}
+		r.Count("retries_run", 1)
+	}
 	for i, m := range msgs {
+		if sr2 != nil {
+			break // IsDelivered now speaks about the retry
+		}
 		if committed[i] > 1 {
 			viol("committed-twice:"+c.FailClass, fmt.Sprintf("message %d was committed %d times in one call", i, committed[i]), nil)
 		}
@@ -243,7 +316,7 @@ func c03Spec(r *ev.Run, stream string, idx, mi int) gen.MsgSpec {
 
 func runC03(r *ev.Run, rep *ev.ReplayDoc) ev.Summary {
 	sum := ev.Summary{
-		Rule: "batches of 1-3 seeded messages (C01 shapes, canonical CRLF) sent through Send / DialAndSend / SendWithSMTPClient under single faults enumerated per batch: every content producer failing before/inside/after its data; the transport failing writes at offsets of every class inside each message's DATA phase (first byte, header block, every boundary line, part bodies, closing boundary, terminating dot) taken from a dry run; every reply class {4yz,5yz,drop} at every command position; plus fault pairs (producer x reply, transport x reply) for small batches. Oracle compares the reference server's commit log with the complete renderings. non-trivial = a fault was injected; distinct by (batch, fault)",
+		Rule: "batches of 1-3 seeded messages (C01 shapes, canonical CRLF) sent through Send / DialAndSend / SendWithSMTPClient under single faults enumerated per batch: every content producer failing before/inside/after its data; the transport failing writes at offsets of every class inside each message's DATA phase (first byte, header block, every boundary line, part bodies, closing boundary, terminating dot) taken from a dry run; every reply class {4yz,5yz,drop} at every command position; plus fault pairs (producer x reply, transport x reply) for small batches; every transport fault and the 4yz/drop replies at DATA / end-of-data / RSET are also run with a retry (the undelivered *Msg values are sent again by a new call over a healthy connection: each must be committed once, complete). Oracle compares the reference server's commit log with the complete renderings. non-trivial = a fault was injected; distinct by (batch, fault)",
 		Assumptions: []string{
 			"expected renderings are produced by the harness after the call with all producer faults disarmed (rendering is repeatable, C11)",
 			"what counts as committed is what the reference server received between 354 and CRLF.CRLF and acknowledged with 2yz",
@@ -292,6 +365,10 @@ func runC03(r *ev.Run, rep *ev.ReplayDoc) ev.Summary {
 				}
 				c.FailClass = "reply-" + k + "-at-" + verb
 				cases = append(cases, c)
+				if (verb == "DATA-END" || verb == "DATA" || verb == "RSET") && k != "5yz" {
+					c.Resend = true
+					cases = append(cases, c)
+				}
 			}
 		}
 		// (iv) a message whose rendering fails before the first byte (S/MIME with a key type the signer
@@ -378,6 +455,8 @@ func runC03(r *ev.Run, rep *ev.ReplayDoc) ev.Summary {
 				c.WriteFail = at
 				c.FailClass = "transport-" + cls
 				cases = append(cases, c)
+				c.Resend = true
+				cases = append(cases, c)
 			}
 			off = end + 5
 		}
@@ -391,7 +470,7 @@ func runC03(r *ev.Run, rep *ev.ReplayDoc) ev.Summary {
 				pf += fmt.Sprintf("%d:%s@%d", mi, k, f.After)
 			}
 		}
-		r.Eval(fmt.Sprintf("%s|%s|%s|%d|%s", c.Specs[0].ID, c.Via, scriptString(c.Script), c.WriteFail, pf), true)
+		r.Eval(fmt.Sprintf("%s|%s|%s|%d|%s|%t", c.Specs[0].ID, c.Via, scriptString(c.Script), c.WriteFail, pf, c.Resend), true)
 		r.Seen("fault_classes", c.FailClass)
 		if i%401 == 0 {
 			r.Sample(map[string]any{"batch": len(c.Specs), "via": c.Via, "fault_class": c.FailClass, "script": scriptString(c.Script), "write_fail_at": c.WriteFail})
